@@ -1064,6 +1064,9 @@ func (fa *FA) entailsOnEdgesAssuming(at ssa.Instruction, goal *Lin, depth int, a
 			return false
 		}
 		for _, pr := range b.Preds {
+			if fa.exempt[pr] {
+				continue // a way in that the caller has accounted for otherwise
+			}
 			cs := append([]Cond{}, acc...)
 			if len(pr.Instrs) > 0 {
 				if ifi, ok := pr.Instrs[len(pr.Instrs)-1].(*ssa.If); ok && pr.Succs[0] != pr.Succs[1] {
@@ -1110,6 +1113,17 @@ func (fa *FA) entailsOnEdgesAssuming(at ssa.Instruction, goal *Lin, depth int, a
 	init = append(init, condsAtInstr(at)...)
 	// start from the block that tests the innermost dominating condition when `at` sits below a phi-valued test
 	return pathOK(at.Block(), init, 0) || pathFromPhiConds(fa, at, goal, init, depth, pathOK)
+}
+
+// EntailsOnEdgesExcept: as EntailsOnEdges, but ways in through one of the exempt blocks need not entail the goal
+// (the caller has another argument for them, e.g. "the value was installed on that path").
+func (fa *FA) EntailsOnEdgesExcept(at ssa.Instruction, goal *Lin, depth int, exempt map[*ssa.BasicBlock]bool) bool {
+	if exempt[at.Block()] {
+		return true
+	}
+	fa.exempt = exempt
+	defer func() { fa.exempt = nil }()
+	return fa.entailsOnEdgesAssuming(at, goal, depth)
 }
 
 // pathFromPhiConds: when a dominating condition of `at` is a phi, restart the path analysis at the phi's block
